@@ -27,6 +27,14 @@ def handleParams : Handler
     if t = "ecm" then some (",".intercalate (Stage2.ecmTable.map showRow))
     else if t = "pm1" then some (",".intercalate (Stage2.pm1Table.map showRow))
     else none
+  | ["convolve_run", bits, k] => do
+    -- the real `convolve_modn` returns iff the dispatch finds an arm, the assert on the modulus
+    -- size holds and the FFT length `size >> logpack` is not zero
+    let bits ← parseNat bits; let k ← parseNat k
+    if bits < 2 then none else
+    match Params.arith_fft.convolve_dispatch bits (2 ^ k) with
+    | none => some "panic"
+    | some r => some (if bits ≤ Params.CONVOLVE_MAX_BITS ∧ 1 ≤ 2 ^ k / 2 ^ r.2.1 then "ok" else "panic")
   | ["ntt_primes"] => some (",".intercalate (Params.NTT_PRIMES.map fun r => s!"{r.1}:{r.2}"))
   | _ => none
 
